@@ -426,6 +426,8 @@ def rule_descriptor_ownership(ctx):
 
 
 def run(ctx):
+    from . import c01
+    c01.rule_dispatch(ctx)            # R01.1: a switch over r->status that ignores enumerators (paused / single-stepped by a client) without reporting
     rule_descriptor_ownership(ctx)
     rule_static_storage(ctx)
     if ctx.tier == 'thorough':
